@@ -80,6 +80,7 @@ class Kernel:
         s.variant = variant; s.meta = meta or {}; s.pre = pre
         v = ('_' + variant) if variant else ''
         s.name = 'k__%s%s__%s__%s' % (op, v, ty, arch)
+        s.fname = s.meta.get('fname') or s.name      # IR function that implements this kernel (several kernels may share one wrapper)
 
     def cpp(s):
         ps = []; decl = []
@@ -108,7 +109,7 @@ class Kernel:
         elif rk == 'x': r = rty
         else: raise ValueError(rk)
         body = s.expr if rk == 'void' else 'return %s;' % s.expr
-        return 'W %s %s(%s){ %s %s %s }' % (r, s.name, ', '.join(ps), ' '.join(decl), s.pre, body)
+        return 'W %s %s(%s){ %s %s %s }' % (r, s.fname, ', '.join(ps), ' '.join(decl), s.pre, body)
 
 
 PRELUDE = '''#include <xsimd/xsimd.hpp>
@@ -163,7 +164,11 @@ def lower(kernels, workdir, extra_flags=(), group=None, jobs=16, fexc=False):
             path = os.path.join(workdir, 'tu_%s_%d' % (re.sub(r'\W', '_', g), ci // chunk))
             extra = list(extra_flags) + ([] if fexc else ['-fno-exceptions'])
             if any(k.arch.startswith('emu') for k in sub): extra.append('-DXSIMD_WITH_EMULATED=1')
-            jobsl.append((path, [k.cpp() for k in sub], extra, flags_for(sub[0].arch)))
+            srcs = []; seen_f = set()
+            for k in sub:
+                if k.fname in seen_f: continue
+                seen_f.add(k.fname); srcs.append(k.cpp())
+            jobsl.append((path, srcs, extra, flags_for(sub[0].arch)))
     out = {}; dropped = []
     with cf.ThreadPoolExecutor(jobs) as ex:
         for (path, lines, extra, _), res in zip(jobsl, ex.map(_compile_tu, jobsl)):
